@@ -7,6 +7,7 @@ from ..match import (strip_move, is_param, rets, nodes_not_in_log, resolve_local
 from . import _lattice
 from . import _containers as cont
 from . import _componentwise as cw
+from . import _graphns
 
 LEVEL_TEXT = ("Clause-level static rules over every domain and scalar class: the leading decision list of each lattice operator "
               "(<=, |, |=, &, &=, ||, &&, widening_thresholds) is evaluated for the nine cases this/argument in {bottom, top, other}; "
@@ -43,4 +44,9 @@ def r4_top_not_stored(ctx):
     cont.top_never_stored(ctx, "C04.r4")
 
 
-RULES = [r1_prologues, r2_componentwise, r3_set_to, r4_top_not_stored]
+def r5_vertex_namespace(ctx):
+    ctx.rule("C04.r5", "graph domains: a vertex id of one operand never indexes the other operand's graph (inclusion / join / meet)", floor=10)
+    _graphns.vertex_namespace_rule(ctx, "C04.r5")
+
+
+RULES = [r1_prologues, r2_componentwise, r3_set_to, r4_top_not_stored, r5_vertex_namespace]
